@@ -693,6 +693,30 @@ def sandwich(tier="quick", start_id=0):
                 segs += [[1, "st.%d.*.load" % c2, 2 if c1 == c2 else 1], [2, "inv", 1], [1, "st.%d.*.load" % cw, 3 if c1 == c2 == cw else (2 if cw in (c1, c2) else 1)],
                          [2, "", 1], [1, "st.%d.*.load" % cv, 1], [3, "", 1], [1, "", 1]]
                 jobs.append({"fam": "until:help-collision", "prog": ph, "sched": {"kind": "until", "segs": segs}})
+    # three threads: A is stopped at every point of its operations while B and C each complete theirs (both orders);
+    # thorough: B is stopped inside its own operation as well (A k1 | B k2 | C all | B rest | A rest)
+    def prog3(a, b, c, strategy):
+        return {"threads": [[{"op": "new", "c": 0, "v": new()}, {"op": "new", "c": 1, "v": new()}],
+                            [{"op": "wait", "t": 0}] + a, [{"op": "wait", "t": 0}] + b, [{"op": "wait", "t": 0}] + c],
+                "strategy": strategy, "reuse": "never"}
+    warm3 = [{"op": "load", "c": 0, "g": 62}, {"op": "drop_g", "g": 62}]
+    ld1 = [{"op": "load", "c": 1, "g": 17}, {"op": "deref_g", "g": 17}, {"op": "drop_g", "g": 17}]
+    st1 = [{"op": "store", "c": 1, "v": new()}]
+    sw1 = [{"op": "swap", "c": 1, "v": new(), "h": 36}, {"op": "deref_h", "h": 36}]
+    trio = [("st|ld|st", warm + st, warm2 + ld, warm3 + st, 56), ("st|ld|ld1", warm + st, warm2 + ld + ld1, warm3 + ld1, 56),
+            ("ld,ld1|st|st1", warm + ld + ld1, warm2 + st, warm3 + st1, 44), ("rcu|st|ld", warm + rcu, warm2 + st, warm3 + ld, 60),
+            ("cas|st|st", warm + cas, warm2 + st, warm3 + st, 70), ("st|sw1|ld,ld1", warm + st, warm2 + sw1, warm3 + ld + ld1, 56)]
+    for name, a, b, c, ka in trio:
+        for strat in ("nofast", "default"):
+            p = prog3(a, b, c, strat)
+            for k1 in range(8, ka):
+                for first, second in ((2, 3), (3, 2)):
+                    jobs.append({"fam": "sandwich:3t:" + name, "prog": p,
+                                 "sched": {"kind": "segs", "segs": [[1, k1], [first, 9999], [second, 9999], [1, 9999]]}})
+                if tier != "quick" and strat == "nofast":
+                    for k2 in range(10, 50, 2):
+                        jobs.append({"fam": "sandwich3:3t:" + name, "prog": p,
+                                     "sched": {"kind": "segs", "segs": [[1, k1], [2, k2], [3, 9999], [2, 9999], [1, 9999]]}})
     # generation wrap inside a writer's NESTED load (the writer helps a reader that is mid-fallback): W claims its node
     # first and presets its counter, R is stopped at every step of its load, W stores
     for back in (1, 2):
